@@ -39,12 +39,18 @@ Definition code_of {A} (o : outcome A) : option Z :=
 Definition opt_z_eqb (a b : option Z) : bool :=
   match a, b with Some x, Some y => x =? y | None, None => true | _, _ => false end.
 
-(** model verdict: [Some (code, max big alloc)] or [None] when not pinned down.  The two limits only
+(** what the harness reports of a successfully loaded database: tables * 10^6 + total rows *)
+Definition db_sig (d : db) : Z :=
+  Z.of_nat (length (d_tables d)) * 1000000
+  + fold_right (fun t acc => Z.of_nat (length (t_rows t)) + t_extra t + acc) 0 (d_tables d).
+Definition sig_of {A} (f : A -> Z) (o : outcome A) : Z := match o with Ok a _ => f a | _ => -1 end.
+
+(** model verdict: [Some (code, max big alloc, signature)] or [None] when not pinned down.  The two limits only
     matter when one of them is hit: if the run with the SMALL limits ends without [StackOverflow]/[Hang]
     the run with the large ones is identical and is not computed. *)
-Definition predict (bs : bytes) : option (Z * Z) :=
+Definition predict (bs : bytes) : option (Z * Z * Z) :=
   let '(t1, o1) := load_binary E_lo bs in
-  let verdict (c : Z) := let m := max_alloc t1 in Some (c, if m <? big then 0 else m) in
+  let verdict (c : Z) := let m := max_alloc t1 in Some (c, (if m <? big then 0 else m), sig_of db_sig o1) in
   match o1 with
   | StackOverflow | Hang =>
       match code_of o1, code_of (snd (load_binary E_hi bs)) with
@@ -60,15 +66,17 @@ Definition code_agrees (model obs : Z) : bool :=
   (model =? obs) || ((model =? 4) && (obs =? 5)).
 
 Record c20_case : Type := mkCase {
-  k_id : Z; k_base : nat; k_off : Z; k_del : Z; k_ins : bytes; k_code : Z; k_alloc : Z }.
+  k_id : Z; k_base : nat; k_off : Z; k_del : Z; k_ins : bytes; k_code : Z; k_alloc : Z; k_sig : Z }.
 
 Definition c20_mismatches (bases : list bytes) (cases : list c20_case) : list Z :=
   flat_map (fun k =>
     let bs := apply_patch (nth (k_base k) bases []) (k_off k) (k_del k) (k_ins k) in
     match predict bs with
     | None => []
-    | Some (c, a) =>
-        if code_agrees c (k_code k) && ((k_alloc k <? 0) || (a =? k_alloc k)) then [] else [k_id k]
+    | Some (c, a, sg) =>
+        if code_agrees c (k_code k) && ((k_alloc k <? 0) || (a =? k_alloc k))
+           && (negb (k_code k =? 0) || (sg =? k_sig k))
+        then [] else [k_id k]
     end) cases.
 
 (** how many cases the model pins down (reported, not compared) *)
